@@ -386,6 +386,7 @@ def prop_qm(line, impl, model):
         return "other: malformed answer"
     live, dead, nextq = {}, {}, 0      # addr -> [seen, qid, contents]; qid -> contents
     inq, closed = [], False            # the receive queue; Close() was called
+    unrefreshed, pending = {}, None    # addr -> instant the record kept although WriteTo was called later (driver: "touched" = what WriteTo itself did)
     for idx, (o, tok) in enumerate(zip(ops, outs)):
         try:
             res, lv, dd = tok.split("/")
@@ -459,7 +460,7 @@ def prop_qm(line, impl, model):
                 got_dead[int(item.split("!")[0])] = item
         if closed and o[0] == "w":
             ad = int(o[1:].split(":")[0])
-            if (ad in got_live) != (ad in live) or (ad in live and got_live[ad][0] != live[ad][0]):
+            if (ad in got_live) != (ad in live) or (ad in live and got_live[ad][0] != live[ad][0] and unrefreshed.get(ad) != got_live[ad][0]):
                 return "after-close: WriteTo on the closed conn touched the client map (client %d: %s) %s" % (
                     ad, "record created" if ad not in live else "last seen %d, was %d" % (got_live[ad][0], live[ad][0]), where)
         for ad, rec in live.items():
@@ -476,7 +477,17 @@ def prop_qm(line, impl, model):
             if cont != render_q(rec[2]):
                 return "contents-lost: client %d's queue holds %s, expected %s %s" % (ad, cont[:60], render_q(rec[2])[:60], where)
             if seen != rec[0]:
-                return "other: client %d last seen %d, expected %d %s" % (ad, seen, rec[0], where)
+                if (o[0] == "o" or (o[0] == "w" and not closed)) and int(o[1:].rsplit("@", 1)[0].split(":")[0]) == ad and seen < rec[0]:
+                    unrefreshed[ad] = seen
+                    if pending is None:
+                        pending = ("early-removal: %s for client %d at %d left the client's record at last seen %d (being written to, "
+                                   "and having the queue fetched, both count as being seen): a sweep between %d and %d discards the queue "
+                                   "less than the timeout %d after the client was seen %s" % (
+                                       "WriteTo" if o[0] == "w" else "OutgoingQueue", ad, rec[0], seen, seen + T, rec[0] + T - 1, T, where))
+                elif unrefreshed.get(ad) != seen:
+                    return "other: client %d last seen %d, expected %d %s" % (ad, seen, rec[0], where)
+            else:
+                unrefreshed.pop(ad, None)
         for ad in got_live:
             if ad not in live:
                 if o[0] == "e":
@@ -496,7 +507,7 @@ def prop_qm(line, impl, model):
             if o[0] in "ir":
                 return "fifo: %s answered %s, expected %s (receive queue: first-in-first-out, drop when full)" % (where, res[:40], want[:40])
             return "contents-lost: %s answered %s, expected %s (first-in-first-out per queue)" % (where, res[:40], want[:40])
-    return None
+    return pending
 
 
 def key_qm(line, impl, model):
@@ -1024,6 +1035,9 @@ def monitors(ctx, exe):
              "%s sweep %d expire %d" % (AREA, T, 8 if ctx.tier == "quick" else 40),
              "%s sweep %d keep %d" % (AREA, T, 4 if ctx.tier == "quick" else 16),
              "%s sweep %d mass %d" % (AREA, T, 3300 if ctx.tier == "quick" else 6000)] + ov
+    # a client between two carriers: seen only by being written to (real clock, real sweeper; timeout 400 ms)
+    TW = 400
+    lines.append("%s sweep %d keepw %d" % (AREA, TW, 4 if ctx.tier == "quick" else 16))
     rc, out, err = vlib.run_impl(exe, lines, timeout=600)
     if rc != 0 or len(out) != len(lines):
         ctx.violation("driver-crash", "monitor driver died: " + err[-500:], dict(case=lines[len(out)] if len(out) < len(lines) else None))
@@ -1065,7 +1079,23 @@ def monitors(ctx, exe):
     elif int(f[1]) > 2.5 * T * 1000:
         ctx.violation("sweep-late", "late: of %s clients seen at the same moment some still had their queue open %s us later (nominal bound "
                       "1.5 x %d ms, slack 1 x)" % (l.split(" ")[4], f[1], T), dict(case=l, impl=r))
-    for l, r in zip(lines[5:], out[5:]):
+    l, r = lines[-1], out[-1]
+    ctx.count(l, kind="sweep-keep-written-only")
+    judged = 0
+    for item in r.split(","):
+        f = item.split(":")
+        if len(f) != 3 or not f[1].isdigit():
+            ctx.violation("driver-crash", "sweep monitor answered " + r[:200], dict(case=l, impl=r)); break
+        if int(f[1]) >= 0.8 * TW * 1000:
+            continue            # this machine let more than 0.8 timeouts pass between two writes: nothing can be concluded
+        judged += 1
+        if f[0] != "ok":
+            ctx.violation("sweep-early", "early-removal: a client whose queue was fetched once and that was then written to every %d ms for two "
+                          "timeouts (largest time between two touches %s us, timeout %d ms) found the queue it holds %s; it held %s of the "
+                          "packets WriteTo accepted: being written to counts as being seen, the queue must not be discarded before the client "
+                          "has been idle for the full timeout" % (TW // 8, f[1], TW, f[0], f[2]), dict(case=l, impl=r)); break
+    ctx.extra["keepw_judged"] = judged
+    for l, r in zip(lines[5:-1], out[5:-1]):
         ctx.count(l, kind="overlap-slow-close")
         bad = prop_overlap(l, r)
         if bad:
